@@ -458,6 +458,21 @@ pub(crate) fn f_dy_fast_fn(
     }
 }
 
+/// Whether the fast function of some nodes is a rotation,
+/// and whether the amount is then its second argument
+fn rotate_amount_is_second(nodes: &[Node]) -> Option<bool> {
+    match nodes {
+        [Node::Prim(Primitive::Rotate, _)] | [Node::ImplPrim(ImplPrimitive::AntiRotate, _)] => {
+            Some(false)
+        }
+        [Node::Mod(Primitive::Rows, args, _)] => rotate_amount_is_second(args[0].node.as_slice()),
+        [Node::Prim(Primitive::Flip, _), rest @ ..] => {
+            rotate_amount_is_second(rest).map(|second| !second)
+        }
+        _ => None,
+    }
+}
+
 pub fn each(ops: Ops, env: &mut Uiua) -> UiuaResult {
     crate::profile_function!();
     let [f] = get_ops(ops, env)?;
@@ -735,12 +750,18 @@ fn rows2(
         }
         return Ok(());
     }
+    let rotate_second = rotate_amount_is_second(f.node.as_slice());
     if !inv
         && let Some((f, f_depth)) = f_dy_fast_fn(
             f.node.as_slice(),
             env.ctx().value_for(&xs).is_some(),
             env.ctx().value_for(&ys).is_some(),
         )
+        // Rotation by rows of amounts that are not scalars or lists gives an array for each row
+        && !rotate_second.is_some_and(|second| {
+            let amount = if second { &ys } else { &xs };
+            amount.rank() > f_depth + depth + 2
+        })
     {
         let val = f(xs, ys, f_depth + depth + 1, env)?;
         env.push(val);
